@@ -11,6 +11,7 @@ std::shared_ptr<sqf::types::d_group> sqf::types::object::group() const { return 
 std::shared_ptr<sqf::types::d_object> sqf::types::object::driver() const { return m_driver ? m_driver : std::make_shared<d_object>(); }
 std::shared_ptr<sqf::types::d_object> sqf::types::object::gunner() const { return m_gunner ? m_gunner : std::make_shared<d_object>(); }
 std::shared_ptr<sqf::types::d_object> sqf::types::object::commander() const { return m_commander ? m_commander : std::make_shared<d_object>(); }
+std::shared_ptr<sqf::types::d_object> sqf::types::object::parent_object() const { return m_parent_object ? m_parent_object : std::make_shared<d_object>(); }
 
 #pragma region ::sqf::types::object::soldiers
 
